@@ -513,7 +513,9 @@ class World:
                 norm = _tex_norm(text) if tex else text
                 allowed: set[str] = set()
                 for x in [e] + list(getattr(e, "decl", [])):
-                    allowed |= set(INTERNAL.findall(_tex_norm(x.latex) if tex else x.display))
+                    # a display name may itself look like a generated name (a clone of an unnamed object); the library shows a
+                    # declared function argument by its code display name in both printers
+                    allowed |= set(INTERNAL.findall(x.display)) | set(INTERNAL.findall(_tex_norm(x.latex)))
                     if not x.named:
                         allowed.add(self._internal_name(x))
                 leaked = [n for n in INTERNAL.findall(norm) if n not in allowed]
